@@ -250,6 +250,10 @@ def rule_t4(repo, col):
         raise AnalysisError("search_local: loop condition not understood: %s" % norm(wl[0].test))
     paths = dtable.extract_block(inner[0].body, opaque_loops=True)
     flip = "1 - %s[%s]" % (choices, key)
+    trial = None
+    for st in inner[0].body:
+        if isinstance(st, ast.Assign) and isinstance(st.targets[0], ast.Name) and norm(st.value) in ("dict(%s)" % choices, "%s.copy()" % choices, "copy.copy(%s)" % choices):
+            trial = st.targets[0].id
     last = None
     seen = set()
     if flagv is not None:
@@ -292,6 +296,25 @@ def rule_t4(repo, col):
                 worse = not t
         if worse is None:
             raise AnalysisError("search_local: a trial path without a score comparison (conditions %s)" % sorted(cd))
+        if len(evals) == 1 and trial is not None and evals[0][1] in (trial, "dict(%s)" % choices, "%s.copy()" % choices):
+            # copy idiom: the trial strategy is a flipped copy; nothing to undo, but an accepted flip must be committed to the strategy that is returned
+            tflips = [a for fn, a, _ in p.calls if fn == "<store>" and a[0].endswith("[%s]" % key) and a[0] != "%s[%s]" % (choices, key)]
+            commits = [a for fn, a, _ in p.calls if fn == "<store>" and a[0] == "%s[%s]" % (choices, key)]
+            rebound = p.env.get(choices)
+            if worse:
+                seen.add("undo")
+                col.decide("T4", m, inner[0], len(tflips) == 1 and not commits and rebound is None, "a trial copy that is not strictly better is discarded",
+                           "a trial whose score is not strictly better must leave the strategy alone; found stores %s" % commits, construct="trial: not better", function="search_local")
+            else:
+                seen.add("keep")
+                newb = p.env.get(best)
+                remembered = p.env.get(flagv) == "True" if flagv is not None else p.env.get(last or "last_update") == key
+                committed = bool(commits) or (rebound is not None and (rebound == trial or rebound.startswith("dict(")))
+                col.decide("T4", m, inner[0], len(tflips) == 1 and committed and newb is not None and newb.startswith("evaluate(") and remembered,
+                           "a strictly better trial copy is committed to the strategy, its score recorded and the decision remembered",
+                           "a strictly better trial must be committed to the strategy that is returned (%s[%s] = ... or %s = %s): found commits %s, %s=%s - otherwise the reported score belongs "
+                           "to a neighbour of the reported strategy" % (choices, key, choices, trial, commits, best, newb), construct="trial: better", function="search_local")
+            continue
         if len(evals) != 1 or evals[0][1] != choices:
             raise AnalysisError("search_local: trial evaluation not understood: %s" % evals)
         if worse:
